@@ -72,10 +72,16 @@ DerivedConf(e) ==
    /\ LET C == e.cover  W == CoverBy(S, e.sheetmap) IN
         /\ C.n = W.n /\ C.op = W.op
         /\ \A i \in 0..(S.dim - 1), c \in 1..C.n : MM(C, i, i + 1, c) = MM(S, i, i + 1, ((c - 1) % S.n) + 1)
+\* preds: the five predicates alone, on D-sets with 6-9 chambers in several numberings (bipartiteness and connectivity
+\* depend on every edge; a numbering can hide the one edge a slip forgets)
+PredsEvOK(e) == LET S == e.sym IN
+   /\ IsDSet(S) /\ Commuting(S)
+   /\ \A nm \in DOMAIN e.reps : "panic" \notin DOMAIN e.reps[nm] /\ PredsOK(S, e.reps[nm], FALSE)
 Next == /\ l <= Len(Rec)
         /\ (LET e == Rec[l] IN
              /\ "panic" \notin DOMAIN e
              /\ IF e.ev = "sym" THEN SymOK(e)
+                ELSE IF e.ev = "preds" THEN PredsEvOK(e)
                 ELSE IF e.ev = "trav" THEN TravOK(e) /\ (IF TravConf(e) THEN TRUE ELSE PrintT(<<"NOTE", "traversal order differs from the reference machine", l>>))
                 ELSE IF e.ev = "derived" THEN (IF DerivedConf(e) THEN TRUE ELSE PrintT(<<"NOTE", "a constructor of derived.rs differs from the specification's operator", l>>))
                 ELSE FALSE) = TRUE
